@@ -38,6 +38,8 @@ def dec(e):
         return pathlib.PurePosixPath(e["__p"])
     if "__abs" in e:
         return os.path.join(HERE, e["__abs"])
+    if "__pabs" in e:
+        return pathlib.PurePosixPath(os.path.join(HERE, e["__pabs"]))
     if "__t" in e:
         return tuple(dec(x) for x in e["__t"])
     if "__d" in e:
@@ -198,6 +200,8 @@ class Project:
         for t in desc["targets"]:
             if t.get("wd"):
                 os.makedirs(self.path(t["wd"]), exist_ok=True)
+        if desc.get("workflow_wd"):
+            os.makedirs(self.path(desc["workflow_wd"]), exist_ok=True)
 
     def write_config(self, cfg):
         with open(self.path(".gwfconf.json"), "w") as f:
